@@ -1070,7 +1070,7 @@ fn round_last_drops(seed: u64, pm: u64) -> Result<(usize, usize), String> {
         let mut sub = ob.subscribe();
         let (r, flag) = poll_stream_once(&mut sub);
         if r != Poll::Pending {
-            return Err(format!("fresh subscriber answered {r:?}"));
+            return Err(format!("[C01] fresh subscriber answered {r:?}"));
         }
         let weak = ob.downgrade();
         let gate = Arc::new(AtomicU64::new(0));
@@ -1107,14 +1107,16 @@ fn round_last_drops(seed: u64, pm: u64) -> Result<(usize, usize), String> {
         }
         let (r2, _f) = poll_stream_once(&mut sub);
         if r2 != Poll::Ready(None) {
+            // not ending is C03's matter; never having been woken on top of it is C02's
+            let tags = if !flag.woken() { "[C02|C03]" } else { "[C03]" };
             return Err(format!(
-                "{n} threads dropped the last {n} clones at the same instant{}: every owner is gone but the subscriber answers {r2:?} (waker woken = {})",
+                "{tags} {n} threads dropped the last {n} clones at the same instant{}: every owner is gone but the subscriber answers {r2:?} (waker woken = {})",
                 if with_upgrade { " (and a fourth upgraded and dropped a weak reference)" } else { "" },
                 flag.woken()
             ));
         }
         if !flag.woken() {
-            return Err("the last clones were dropped concurrently: the stream ended but the waker of the Pending poll was never woken".into());
+            return Err("[C02] the last clones were dropped concurrently: the stream ended but the waker of the Pending poll was never woken".into());
         }
         checked += 1;
     }
@@ -1869,7 +1871,7 @@ fn round_w1_async(seed: u64, pm: u64) -> Result<(usize, usize), String> {
         // values are unique here: next() handing out the same value twice means it was ready again
         // without an update the subscriber had not observed
         if *p == lastp && *p != 0 {
-            return Err(format!("async subscriber was handed {v} twice by consecutive next() calls although no update happened in between"));
+            return Err(format!("[C01|C16] async subscriber was handed {v} twice by consecutive next() calls although no update happened in between"));
         }
         lastp = *p;
     }
@@ -1933,7 +1935,7 @@ fn round_many_waiters(seed: u64, pm: u64) -> Result<(usize, usize), String> {
                         Poll::Ready(Some(v)) => {
                             if let Some(l) = last[i] {
                                 if l == v {
-                                    return Err(format!("[C02|C04] poller {k}: subscriber {i} was handed the value {v:#x} twice in a row (unique values are stored)"));
+                                    return Err(format!("[C01] poller {k}: subscriber {i} was handed the value {v:#x} twice in a row (unique values are stored)"));
                                 }
                             }
                             last[i] = Some(v);
@@ -1990,7 +1992,7 @@ fn round_many_waiters(seed: u64, pm: u64) -> Result<(usize, usize), String> {
                     // every owner is gone (the drop has returned): a Pending waiter must have been woken
                     for i in 0..n {
                         if !ended[i] && !flags[i].as_ref().unwrap().woken() {
-                            return Err(format!("[C02|C03|C04] poller {k}: subscriber {i} of {n} was Pending when the last owner went away and its waker was never woken"));
+                            return Err(format!("[C02] poller {k}: subscriber {i} of {n} was Pending when the last owner went away and its waker was never woken"));
                         }
                     }
                 }
